@@ -54,3 +54,24 @@ package manifest
 //@     | || ($dyntype(m, *oci1Manifest) && $unbox(m, *oci1Manifest).common == c)
 //@     | || ($dyntype(m, *oci1Index) && $unbox(m, *oci1Index).common == c)
 //@     | || ($dyntype(m, *oci1Artifact) && $unbox(m, *oci1Artifact).common == c)
+
+// fromOrig (manifest from a typed struct): the struct is serialised here; when the caller gave
+// no raw bytes the serialisation becomes the raw body, and digest and size are those of the raw
+// body. (Schema1 signed manifests are addressed by the digest of their canonical payload.)
+//@ func fromOrig(c, orig) (m, err)
+//@   prop C02
+//@   let algo = c.desc.DigestAlgo()
+//@   let signed = $dyntype(orig, schema1.SignedManifest)
+//@   ensures raw-is-serialisation: err == nil && len(old(c.rawBody)) == 0 ==> $str(c.rawBody) == $json(orig) && len(c.rawBody) > 0
+//@   ensures raw-bytes-kept: len(old(c.rawBody)) > 0 ==> c.rawBody == old(c.rawBody)
+//@   ensures digest-of-raw: err == nil && !signed && len(old(c.rawBody)) == 0 ==> c.desc.Digest == $fromBytes(algo, $str(c.rawBody)) && c.desc.Size == len(c.rawBody)
+//@   ensures digest-of-raw-when-raw-given: err == nil && !signed && len(old(c.rawBody)) > 0 ==> c.desc.Digest == $fromBytes(algo, $str(c.rawBody)) && c.desc.Size == len(c.rawBody)
+//@   ensures expected-digest-honoured: err == nil && old(c.desc.Digest) != "" ==> c.desc.Digest == old(c.desc.Digest)
+//@   ensures media-type-agrees-with-body: err == nil ==> mt == "" || mt == c.desc.MediaType
+//@   ensures result-carries-common: err == nil ==> ($dyntype(m, *docker1Manifest) && $unbox(m, *docker1Manifest).common == c)
+//@     | || ($dyntype(m, *docker1SignedManifest) && $unbox(m, *docker1SignedManifest).common == c)
+//@     | || ($dyntype(m, *docker2Manifest) && $unbox(m, *docker2Manifest).common == c)
+//@     | || ($dyntype(m, *docker2ManifestList) && $unbox(m, *docker2ManifestList).common == c)
+//@     | || ($dyntype(m, *oci1Manifest) && $unbox(m, *oci1Manifest).common == c)
+//@     | || ($dyntype(m, *oci1Index) && $unbox(m, *oci1Index).common == c)
+//@     | || ($dyntype(m, *oci1Artifact) && $unbox(m, *oci1Artifact).common == c)
